@@ -76,6 +76,12 @@ class BadHandle(Exception):
 
 
 def err_kind(e):
+    # the SDK's context managers raise again from their `finally` blocks (UnboundLocalError,
+    # AssertionError): the exception that started it is at the end of the __context__ chain
+    seen = 0
+    while getattr(e, "__context__", None) is not None and seen < 50:
+        e = e.__context__
+        seen += 1
     s = str(e)
     if isinstance(e, BadHandle):
         return "badHandle"
